@@ -3,7 +3,7 @@
 import json, os, shutil, sys, glob
 pid, m, det = sys.argv[1], sys.argv[2], sys.argv[3]
 note = sys.argv[4] if len(sys.argv) > 4 else ""
-src = f"/tmp/seeds/{pid}/{m}"
+src = os.environ.get("SRC") or f"/tmp/seeds/{pid}/{m}"
 dst = f"/verif/seeded/{pid}-{m}"
 os.makedirs(dst, exist_ok=True)
 shutil.copy(f"{src}/patch.diff", f"{dst}/patch.diff")
